@@ -452,7 +452,7 @@ func (h *hist) postElements(v *vstate, post []*am.Element, class, expectPanicKey
 	}
 	if r.Panicked() {
 		key := expectPanicKey
-		if key == "" {
+		if key == "" || !strings.Contains(string(r.Body), "assignment to entry in nil map") {
 			key = "panic:" + class
 			h.dead = true // unknown site: the stored state is unknown
 		}
@@ -881,6 +881,7 @@ func (h *hist) opBlocksReload(v *vstate) error {
 // ---- label side
 
 type lmResp struct {
+	Label            uint64 // split/<label>
 	CleavedLabel     uint64
 	SplitSupervoxel  uint64
 	RemainSupervoxel uint64
@@ -1068,6 +1069,71 @@ func (h *hist) opSplitSV(v *vstate) error {
 	h.logf("split-supervoxel@%s sv %d (body %d) box %s..%s -> split %d remain %d (%d elements on it; bodies must not change)", v.name, sv, v.vol.BodyOf(sv), lo, shi, out.SplitSupervoxel, out.RemainSupervoxel, n)
 	v.vol.SplitSV(sv, lo, shi, out.SplitSupervoxel, out.RemainSupervoxel)
 	h.c.Count("op_split_supervoxel", 1)
+	return nil
+}
+
+// opSplitBody: POST split/<label> with a sparse volume that is a proper part of the body.
+func (h *hist) opSplitBody(v *vstate) error {
+	bodies := v.vol.SortedBodies()
+	if len(bodies) == 0 {
+		return nil
+	}
+	b := bodies[h.r.Intn(len(bodies))]
+	var on []am.Point
+	for _, p := range v.elems.Positions() {
+		if v.vol.BodyAt(p) != 0 {
+			on = append(on, p)
+		}
+	}
+	var lo, hi am.Point
+	if len(on) > 0 && h.r.Intn(4) > 0 { // a box around (or right next to) an element
+		c := on[h.r.Intn(len(on))]
+		b = v.vol.BodyAt(c)
+		lo = am.Point{c[0] - int32(h.r.Intn(5)), c[1] - int32(h.r.Intn(5)), c[2] - int32(h.r.Intn(5))}
+		hi = am.Point{lo[0] + 3 + int32(h.r.Intn(8)), lo[1] + 3 + int32(h.r.Intn(8)), lo[2] + 3 + int32(h.r.Intn(8))}
+	} else {
+		svs := v.vol.Bodies()[b]
+		l, u, ok := v.vol.SVBounds(svs[h.r.Intn(len(svs))])
+		if !ok {
+			return nil
+		}
+		ax := h.r.Intn(3)
+		u[ax] = l[ax] + (u[ax]-l[ax]+1)/2
+		lo, hi = l, u
+	}
+	runs, nvox := v.vol.RunsWhere(lo, hi, func(p am.Point) bool { return v.vol.BodyAt(p) == b })
+	if nvox == 0 || nvox >= v.vol.BodyVoxels(b) {
+		return h.opPostNew(v, 1)
+	}
+	h.opNT = false
+	size := [3]int32{hi[0] - lo[0], hi[1] - lo[1], hi[2] - lo[2]}
+	n, neg := h.elemsTouched(v, func(p am.Point) bool { return v.vol.BodyAt(p) == b && p.InBox(lo, size) })
+	h.opClass = "split" + negSuffix(neg)
+	out, _, err := h.labelPost(v, fmt.Sprintf("split/%d", b), am.EncodeRLE(runs), "split")
+	if err != nil {
+		return err
+	}
+	if out.Label == 0 {
+		return fmt.Errorf("split returned no label (fixture problem)")
+	}
+	// the server renames the touched supervoxels: take the new supervoxel volume from the labelmap itself
+	if err := h.w.Settle(); err != nil {
+		return err
+	}
+	r, err := h.w.Get(h.url(v, "labels", fmt.Sprintf("raw/0_1_2/%d_%d_%d/%s?supervoxels=true", v.vol.Dim[0], v.vol.Dim[1], v.vol.Dim[2], v.vol.Org.URL())))
+	if err != nil {
+		return err
+	}
+	if !r.OK() {
+		return fmt.Errorf("GET raw supervoxels after split: %s", r)
+	}
+	if err := v.vol.ApplySplit(runs, out.Label, r.Body); err != nil {
+		return fmt.Errorf("split read-back does not fit the model (fixture problem): %v; history %s", err, tail(h.trace, 6))
+	}
+	v.labels[out.Label] = true
+	h.logf("split@%s body %d box %s..%s (%d voxels) -> new body %d (%d elements change body)", v.name, b, lo, hi, nvox, out.Label, n)
+	h.c.Count("op_split_body", 1)
+	h.c.Count("elements_rebodied_by_label_ops", n)
 	return nil
 }
 
@@ -1497,6 +1563,7 @@ func (h *hist) compare(v *vstate) error {
 		h.c.Case(ck.view+"|"+h.opClass+"|"+drv.Hash(ck.canon), nt)
 		h.c.Count("views_compared", 1)
 		h.c.Seen("view_kinds", ck.view)
+		h.c.Seen("operation_classes", h.opClass)
 		if len(bad) == 0 {
 			continue
 		}
@@ -1767,9 +1834,11 @@ func (h *hist) run(nops int) error {
 			err = h.opMerge(v)
 		case x < 79:
 			err = h.opCleave(v)
-		case x < 83:
+		case x < 82:
 			err = h.opSplitSV(v)
-		case x < 91:
+		case x < 85:
+			err = h.opSplitBody(v)
+		case x < 92:
 			err = h.opMutate(v)
 		case x < 95:
 			err = h.opIngest(v)
@@ -1834,9 +1903,11 @@ func (h *hist) run(nops int) error {
 
 func run(c *drv.Ctx) error {
 	c.Rule("a case is one view comparison (GET elements/<size>/<offset>, blocks/<size>/<offset>, all-elements, roi/<spec>, tag/<t> and label/<l> with and without relationships, labelsz count / counts / top / threshold per index type) " +
-		"after one operation of a random sequential history on a small version DAG, after the worker settled; operations: POST elements (new / overwrite / mutual and one-sided relationships / tag swap inside one block), DELETE element, move " +
-		"(same or other block; same body, other body, background), POST blocks + reload (+ labelsz reload), and merge / cleave / split-supervoxel / POST raw?mutate=true / first-time block ingest on the synced labelmap, commit + newversion / branch; " +
-		"positions straddle block borders (…31|32…, 63|64) and supervoxel borders, lie on background outside any label block and, in every third history, at negative coordinates (−1|0). " +
+		"after one operation of a random sequential history on a small version DAG (commit + newversion / branch; committed ancestors are compared again), after the worker settled; operations: POST elements (new / overwrite / mutual and one-sided relationships / " +
+		"tag swap inside one block), DELETE element, move (same or other block; same body, other body, background), POST blocks + reload (in-memory or low-memory) + labelsz reload, and merge / cleave / split-supervoxel / split / POST raw?mutate=true / " +
+		"first-time block ingest on the synced labelmap; positions straddle block borders (…31|32…, 63|64) and supervoxel borders and lie on background outside any label block. Five operation classes have known, reported defects; " +
+		"every history may use exactly one of them (history index mod 5: none / overwrite with another kind / negative coordinates incl. −1|0 / move within one body / voxel writes under elements on merged or cleaved supervoxels) and only in its last 40%, " +
+		"so all histories explore the rest first and a history stops at its first fatal violation (model and server have diverged). " +
 		"A case is non-trivial when the expected view holds >= 2 elements or the last operation touched an element with tags or relationships; distinct by (view kind, class of the last operation, expected content)")
 	c.Assume("the label volume is a fixture here: the model's body at every element position is cross-checked against the labelmap's own GET label/<coord>; a disagreement aborts the run as BROKEN instead of producing a verdict")
 	c.Assume("relationship consistency is asserted for mutual references only; one-sided references whose target was deleted or moved may be kept, dropped or retargeted")
